@@ -118,6 +118,21 @@ def api_cases(chk, tier):
         for op in ("Mul", "Add", "Div", "Sub", "Mul"):
             if not (op == "Div" and ky == "straddle"):
                 out.append((op, "f", X, Y, (kx, ky, "session"), op == "Add"))
+    # a Dempster-Shafer structure as the first operand of several operations in a row (ONE object, float focal elements listed in no
+    # particular order, unequal masses): each result is decided against the p-box of the structure AS GIVEN (converted from a copy)
+    from pyuncertainnumber import pba as _pba
+    for sn in range(2):
+        n = rng.randint(3, 6)
+        lo = [pbx.dyadic(rng, 0.5, 6) for _ in range(n)]
+        fe = np.array([[a, a + pbx.dyadic(rng, 0.25, 4)] for a in lo], dtype=float)
+        m = [rng.choice([1, 2, 5, 9]) for _ in range(n)]
+        masses = [v / sum(m) for v in m]
+        ref = _pba.DempsterShafer(intervals=fe.copy(), masses=list(masses)).to_pbox()
+        X = ([float(v) for v in ref.left], [float(v) for v in ref.right])
+        DSS_SESSIONS[sn] = _pba.DempsterShafer(intervals=fe, masses=list(masses))
+        Y = pbx.gen_bounds(rng, 200, "pos", dy=True)
+        for op in ("Add", "Sub", "Mul", "Div", "Add"):
+            out.append((op, "f", X, Y, ("dss", "pos", "session"), True, f"dss:{sn}"))
     # Staircase.balchprod called directly ("Frechet convolution of two p-boxes when any of them straddles zero"): every pairing of
     # straddling / one-signed operands, either order
     for kx, ky in (("straddle", "pos"), ("pos", "straddle"), ("straddle", "straddle"), ("straddle", "neg"), ("neg", "straddle"), ("pos", "pos")):
@@ -133,6 +148,9 @@ def api_cases(chk, tier):
     return out
 
 
+DSS_SESSIONS = {}
+
+
 def run_api(case):
     from pyuncertainnumber.pba.pbox_abc import Staircase
     import contextlib
@@ -142,11 +160,13 @@ def run_api(case):
         x, y = pbx.staircase_of(X), pbx.staircase_of(Y)
         if amb == "balch":
             r = x.balchprod(y)
+        elif amb and amb.startswith("dss:"):
+            r = pbx.PYOPS[op](DSS_SESSIONS[int(amb[4:])], y)
         elif bare:
             r = pbx.PYOPS[op](x, y)
         else:
             from pyuncertainnumber.pba.context import dependency as _dep
-            with (_dep(amb) if amb else contextlib.nullcontext()):
+            with (_dep(amb) if amb in ("p", "o", "i") else contextlib.nullcontext()):
                 r = {"Add": x.add, "Sub": x.sub, "Mul": x.mul, "Div": x.div}[op](y, dependency=d)
         return ("ok", [float(v) for v in r.left], [float(v) for v in r.right])
     except Exception as e:
